@@ -468,6 +468,7 @@ func funcHashes() map[string]string {
 				}
 				key = rel + ":" + r + x.Name.Name
 				_ = printer.Fprint(&buf, token.NewFileSet(), x)
+				funcLocalsOut[key] = localNames(x)
 			case *ast.GenDecl:
 				if x.Tok == token.IMPORT {
 					continue
@@ -504,6 +505,8 @@ func main() {
 	_ = os.MkdirAll(filepath.Dir(hp), 0o755)
 	b, _ := json.Marshal(funcHashes())
 	_ = os.WriteFile(hp, b, 0o644)
+	lb, _ := json.Marshal(funcLocalsOut)
+	_ = os.WriteFile(filepath.Join(filepath.Dir(hp), "funclocals.json"), lb, 0o644)
 
 	if len(errs) > 0 {
 		sort.Strings(errs)
